@@ -1197,8 +1197,12 @@ class Parser:
         - EnumValue : Name
         """
         start = self.peek()
+        desc = self.parse_description()
+        token = self.peek()
+        if token.__class__ is Name and token.value in ("true", "false", "null"):
+            raise _unexpected_token(token, token.start, self._lexer._source)
         return _ast.EnumValueDefinition(
-            description=self.parse_description(),
+            description=desc,
             name=self.parse_name(),
             directives=self.parse_directives(True),
             loc=self._loc(start),
